@@ -1335,6 +1335,13 @@ class MiniInterp:
                     r = self.hook(self, "call", ("builtin", "str"), [x], {}, n, fi)
                     if isinstance(r, str):
                         x = r
+                if isinstance(x, Sym) and x.cls is not None and v.conversion == -1 and \
+                        any(x.cls.find_method(mn) is not None for mn in ("__format__", "__str__", "__repr__")):
+                    # an object of the project in a replacement field: its own __format__ (or text form)
+                    r = self.builtin("format", [x, spec], {}, n)
+                    if isinstance(r, str):
+                        parts.append(r)
+                        continue
                 if plain(x):
                     try:
                         if v.conversion == ord("r"):
@@ -2571,6 +2578,24 @@ class MiniInterp:
                 return None
             if name == "type" and len(args) == 1 and not kwargs:
                 return self.type_of(args[0])
+            if name == "format" and 1 <= len(args) <= 2 and not kwargs:
+                spec_ = args[1] if len(args) > 1 else ""
+                if not isinstance(spec_, str):
+                    raise Unknown("format() with a symbolic specification")
+                v_ = args[0]
+                if isinstance(v_, Sym) and v_.cls is not None:
+                    m_ = v_.cls.find_method("__format__")
+                    if m_ is not None:
+                        return self.call(self.prj.func(m_.qual, raw=True), [spec_], {}, v_)
+                    if spec_ == "":
+                        return self.builtin("str", [v_], {}, node)
+                    raise PyRaise("TypeError", node)
+                if self.plain(v_):
+                    try:
+                        return format(v_, spec_)
+                    except (ValueError, TypeError) as e:
+                        raise PyRaise(type(e).__name__, node)
+                raise Unknown("format() of a symbolic value")
             if name == "slice" and 1 <= len(args) <= 3 and not kwargs:
                 if not all(a is None or (isinstance(a, int) and not isinstance(a, bool)) for a in args):
                     raise Unknown("slice of non-integer bounds")
